@@ -397,12 +397,13 @@ def log_amp(lo_exp, hi_exp):
 
 
 @st.composite
-def special_model_st(draw, cplx=None, max_modes=4, beta_lo=0.1, beta_hi=200.0, symm_modes=("default", "ignore", "custom"), wide=False):
-    """non-interacting, atomic-limit and particle-hole symmetric Hubbard models on spin-1/2 single-orbital sites;
+def special_model_st(draw, cplx=None, max_modes=4, beta_lo=0.1, beta_hi=200.0, symm_modes=("default", "ignore", "custom"), wide=False, tiny_field=False):
+    """tiny_field=True: always the wide family with a Zeeman field between 1e-13 and 1e-7 (level splittings below the default
+    1e-8 resonance tolerance or just above it); non-interacting, atomic-limit and particle-hole symmetric Hubbard models on spin-1/2 single-orbital sites;
     wide=True adds Hubbard clusters whose parameters span many orders of magnitude (strong coupling, tiny fields)"""
     if cplx is None:
         cplx = draw(st.booleans())
-    kind = draw(st.sampled_from(["free", "atomic", "ph-hubbard"] + (["wide", "wide"] if wide else [])))
+    kind = "wide" if tiny_field else draw(st.sampled_from(["free", "atomic", "ph-hubbard"] + (["wide", "wide"] if wide else [])))
     nsites = draw(st.integers(1, max(1, max_modes // 2)))
     labs = draw(st.lists(st.sampled_from(LABELS), min_size=nsites, max_size=nsites, unique=True))
     sites = [[l, 1, 2] for l in labs]
@@ -430,8 +431,8 @@ def special_model_st(draw, cplx=None, max_modes=4, beta_lo=0.1, beta_hi=200.0, s
             terms.append(P("coulombS", l, [Ul, 0.0], [lev, 0.0]))
         for a in range(nsites - 1):
             terms.append(P("hop3", labs[a], labs[a + 1], [draw(log_amp(-4, 1)), 0.0]))
-        if draw(st.integers(0, 2)) == 0:
-            h = abs(draw(log_amp(-13, -1)))
+        if tiny_field or draw(st.integers(0, 2)) == 0:
+            h = abs(draw(log_amp(-13, -7 if tiny_field else -1)))
             l = draw(st.sampled_from(labs))
             if draw(st.booleans()):      # longitudinal field h (n_up - n_dn) / transverse field h (c+_up c_dn + h.c.)
                 terms += with_hc([h, 0.0], [[1, l, 0, 0], [0, l, 0, 0]]) + with_hc([-h, 0.0], [[1, l, 0, 1], [0, l, 0, 1]])
